@@ -5,7 +5,7 @@ import z3
 
 from .values import (VInt, VBool, VNone, VStr, VTuple, VBox, VRef, VConc,
                      ListCell, SeqCell, Unsupported, is_concrete_str,
-                     concrete_str, SeqString)
+                     concrete_str, SeqString, L_len, L_at)
 from .symex import as_int, unbox_choose, slice_str, norm_index
 from . import models as M
 
@@ -33,20 +33,35 @@ def split_facts(ctx, d, sep, L):
         only: L[-1] is a suffix of d, and if L[-1]=='' and len(L)>1 then
         d.endswith(sep)
     """
-    n = z3.Length(L)
+    n = L_len(L)
     j = ctx.fresh_int('sj')
-    ctx.assume(n == M.F_Count(d, sep) + 1)
+    ctx.assume(n == M.F_Count(d, sep) + 1)          # B1
     ctx.assume(M.F_Count(d, sep) >= 0)
-    ctx.assume(z3.ForAll([j], z3.Implies(
-        z3.And(j >= 0, j < n), z3.Not(z3.Contains(L[j], sep)))))
-    ctx.assume(M.F_Join(sep, L) == d)
+    ctx.assume_forall(j, z3.Implies(                 # B2
+        z3.And(j >= 0, j < n), z3.Not(z3.Contains(L_at(L, j), sep))),
+        defaults=[z3.IntVal(0), n - 1, n - 2])
+    ctx.assume(M.F_Join(sep, L) == d)                # B3
     ctx.assume(z3.Implies(z3.Not(z3.Contains(d, sep)),
-                          z3.And(n == 1, L[0] == d)))
+                          z3.And(n == 1, L_at(L, 0) == d)))
     ctx.assume(z3.Implies(
         z3.Contains(d, sep),
-        z3.And(n >= 2, L[0] == z3.SubString(d, 0, z3.IndexOf(d, sep, 0)))))
-    ctx.assume(z3.SuffixOf(L[n - 1], d))
-    ctx.assume(z3.Implies(n >= 2, z3.SuffixOf(z3.Concat(sep, L[n - 1]), d)))
+        z3.And(n >= 2,
+               L_at(L, 0) == z3.SubString(d, 0, z3.IndexOf(d, sep, 0)))))
+    ctx.assume(z3.SuffixOf(L_at(L, n - 1), d))
+    ctx.assume(z3.Implies(n >= 2, z3.SuffixOf(
+        z3.Concat(sep, L_at(L, n - 1)), d)))
+    if is_unbordered_const(sep):                     # B6
+        ctx.assume(z3.SuffixOf(sep, d) == z3.And(
+            n >= 2, L_at(L, n - 1) == z3.StringVal('')))
+
+
+def is_unbordered_const(sep):
+    s = z3.simplify(sep)
+    if not z3.is_string_value(s):
+        return False
+    from .values import VStr
+    v = concrete_str(VStr(s, True))
+    return len(v) > 0 and not any(v[:k] == v[-k:] for k in range(1, len(v)))
 
 
 def str_method(it, recv, name, args, kwargs):
@@ -95,13 +110,19 @@ def str_method(it, recv, name, args, kwargs):
         if maxsplit is None and len(args) > 1:
             raise Unsupported('symbolic maxsplit')
         if maxsplit == 1:
-            i = z3.IndexOf(e, sep.e, 0)
-            if ctx.branch(i >= 0):
-                a = VStr(z3.simplify(z3.SubString(e, 0, i)), recv.b)
-                rest = i + z3.Length(sep.e)
-                b = VStr(z3.simplify(z3.SubString(
-                    e, rest, z3.Length(e) - rest)), recv.b)
-                return ctx.alloc(ListCell([a, b]))
+            if ctx.branch(z3.Contains(e, sep.e)):
+                # word-equation view: e = a . sep . b with the first
+                # occurrence of sep (for a one-character separator: sep does
+                # not occur in a)
+                a = ctx.fresh_str('head')
+                b = ctx.fresh_str('tail')
+                ctx.assume(e == z3.Concat(a, sep.e, b))
+                if is_concrete_str(sep) and len(concrete_str(sep)) == 1:
+                    ctx.assume(z3.Not(z3.Contains(a, sep.e)))
+                else:
+                    ctx.assume(z3.IndexOf(e, sep.e, 0) == z3.Length(a))
+                return ctx.alloc(ListCell([VStr(a, recv.b),
+                                           VStr(b, recv.b)]))
             return ctx.alloc(ListCell([recv]))
         if maxsplit is not None:
             raise Unsupported('split maxsplit=%r' % maxsplit)
@@ -138,6 +159,18 @@ def str_method(it, recv, name, args, kwargs):
     if name == 'decode':
         if not recv.b:
             it.raise_(AttributeError)
+        errors = args[1] if len(args) > 1 else kwargs.get('errors')
+        if errors is not None:
+            if is_concrete_str(errors) and concrete_str(errors) in (
+                    'replace', 'ignore', 'backslashreplace'):
+                enc = _codec_arg(it, args[0])
+                if is_concrete_str(enc):
+                    try:
+                        codecs.lookup(concrete_str(enc))
+                    except LookupError:
+                        it.raise_(LookupError)
+                    return VStr(ctx.fresh_str('lossy'), False)
+            raise Unsupported('decode with errors=%r' % (errors,))
         return decode(it, recv, args[0] if args else VStr('utf-8', False))
     if name == 'getvalue':
         raise Unsupported('getvalue on string')
